@@ -376,7 +376,7 @@ impl<'a, F: Flavour> Ctx<'a, F> {
                 .iter()
                 .any(|x| ((x.u == a && x.v == b) || (x.u == b && x.v == a)) && x.val == e)
         };
-        if !live && self.next == 0 {
+        if !live && self.stats.get("injected_ops") == 0 {
             // nothing has been injected yet: a wrong report on a frozen graph is C07/C08's
             // business (not decided by this technique), not a re-entrancy matter
             self.stats.inc("frozen_graph_wrong_yield_not_a_C20_verdict");
@@ -418,7 +418,7 @@ impl<'a, F: Flavour> Ctx<'a, F> {
             // expanded at most once and every listing visited at most once
             // fixed when the plan ran out: afterwards only operations that add no edge fire, so
             // the listings that exist at that moment bound what is left to visit
-            let now = 4 * (2 * self.model.edges.len() + self.world.n()) + 16;
+            let now = 16 * (2 * self.model.edges.len() + self.world.n()) + 64;
             let bound = *self.bound.get_or_insert(now);
             if self.steps_after_script > bound {
                 self.violation = Some(Violation::new(
@@ -455,6 +455,7 @@ fn run_host<F: Flavour>(sc: &InjSc, with_script: bool, stats: &mut Stats) -> (Op
     let empty = InjSc {
         script: Vec::new(),
         fire: Vec::new(),
+        every_step: None,
         ..sc.clone()
     };
     let transposed = match &sc.host {
